@@ -6,7 +6,7 @@
 From Coq Require Import List Arith Bool NArith.
 From Conductor Require Import Model.Loader Model.Planner Model.Exec Model.RunCase Proofs.Compose Proofs.ComposeRun
   Proofs.ExecInv Proofs.ExecTheorems Proofs.ExecMain Proofs.PlannerInv Proofs.PlannerThm Proofs.PlannerExact Proofs.PlannerOrder Proofs.PlanClosure.
-From Conductor Require Import Gen.Generated Proofs.GenTie.
+From Conductor Require Import Gen.Generated Proofs.GenTie Proofs.GenTieLowering.
 Import ListNotations.
 
 (* Needed = tasks reachable from the root through tasks that run, and that run themselves;
@@ -121,6 +121,20 @@ Print Assumptions C02_exactly_once_when_nothing_fails_end_to_end.
 Theorem C02_prune_rule_is_the_sources : forall again b, gen_prune again b = negb again && negb b.
 Proof. exact prune_tie. Qed.
 Print Assumptions C02_prune_rule_is_the_sources.
+
+(* ... and what a task that is NOT pruned becomes (the second visit of create_plan_for, TRANSLATED from planner.py on every run:
+   Gen.Generated.gen_lowering): exactly one operation per task -- RunTaskExecutable for run_command / run_experiment, CombineOutputs
+   for combine, NoOp for group --; the model lowers every kind as the translated table says: synchronous exactly for the
+   operation classes other than RunTaskExecutable, `parallelizable` taken from the task's declaration exactly where the
+   sources pass it on, a new version created (and recorded, with the output and the serialised arguments) exactly for
+   experiments. *)
+Theorem C02_lowering_is_the_sources : forall k, exists cls par ver rec ser,
+  lowering_row k = Some (kind_code k, (cls, par, ver, rec, ser)) /\
+  is_sync k = negb (N.eqb cls 0) /\
+  (forall tp : bool, (match k with KCommand | KExperiment => tp | _ => false end) = par && tp) /\
+  ver = (match k with KExperiment => true | _ => false end) /\ rec = ver /\ ser = ver.
+Proof. exact lowering_tie. Qed.
+Print Assumptions C02_lowering_is_the_sources.
 
 (* ... used by the model where the source uses it: on the first visit of a task the planner step
    records it as cached and pops it without pushing its dependencies exactly when the translated
